@@ -269,6 +269,8 @@ impl Check for Access {
                     ("grant_role", true) => "grant.needs_admin_or_role_admin",
                     ("revoke_role", true) => "revoke.needs_admin_or_role_admin",
                     ("admin_fn" | "role_fn" | "has_role_fn" | "any_fn" | "has_any_fn", true) => "guard.needs_principal",
+                    ("renounce_role", true) => "renounce.needs_holder_auth",
+                    ("set_role_admin" | "renounce_admin", true) => "admin_only.needs_admin_auth",
                     (_, true) => "refine.must_fail",
                     (_, false) => "live.authorised_call_succeeds",
                 };
@@ -291,7 +293,7 @@ impl Check for Access {
                 let mut seen = BTreeSet::new();
                 for k in 0..cnt {
                     let mem = c.get_role_member(&role(r), &k);
-                    let idx = w.idx(&mem).expect("member is an actor");
+                    let Some(idx) = w.idx(&mem) else { return Err(violation("enum.bijection", kind, i, format!("role {r}: index {k} holds an address that was never granted anything"))) };
                     if !want.contains(&idx) || !seen.insert(idx) {
                         return Err(violation("enum.bijection", kind, i, format!("role {r}: index {k} holds actor {idx}, model {want:?}")));
                     }
@@ -314,7 +316,15 @@ impl Check for Access {
                     return Err(violation("role_admin.model_eq", kind, i, format!("role {r}")));
                 }
             }
-            let ex: BTreeSet<usize> = c.get_existing_roles().iter().map(|s| (0..4).find(|r| role(*r) == s).expect("known role")).collect();
+            let mut ex: BTreeSet<usize> = BTreeSet::new();
+            for sy in c.get_existing_roles().iter() {
+                match (0..4).find(|r| role(*r) == sy) {
+                    Some(r) => {
+                        ex.insert(r);
+                    }
+                    None => return Err(violation("roles.existing_eq_nonempty", kind, i, "get_existing_roles lists a role nobody was ever granted".into())),
+                }
+            }
             if ex != existing || c.get_existing_roles().len() as usize != existing.len() {
                 return Err(violation("roles.existing_eq_nonempty", kind, i, format!("existing roles {ex:?}, model {existing:?}")));
             }
